@@ -43,6 +43,14 @@ class Reach:
         except ValueError:
             pass
 
+    def module_counts(self):
+        """Calls per module of the package (robust against renamed private helpers)."""
+        out = {}
+        for k, v in self._counts.items():
+            m = k.split(".", 1)[0]
+            out[m] = out.get(m, 0) + v
+        return out
+
     def counts(self):
         if not self.wanted:
             return dict(self._counts)
